@@ -540,25 +540,38 @@ def renum_cases(draw):
     c["load"] = [draw(st.integers(-6, 6)) / 2.0 for _ in range(4)]
     c["dval"] = [draw(st.integers(-4, 4)) / 4.0 for _ in range(3)]
     c["boundary_load"] = draw(st.booleans())
+    # mapped: the node sets of the renumbered mesh are the images perm[nodes] of the sets of the original mesh, in the original
+    # order (what a caller who renumbers a model does) - not sorted; otherwise they are selected again on the renumbered mesh
+    c["sets"] = draw(st.sampled_from(["selected", "mapped"]))
     return c
 
 
-def _renum_build(case, mesh):
+def _renum_build(case, mesh, mapped=None):
     """simulation with Dirichlet + Neumann conditions selected geometrically (so that the same physical
-    nodes are selected whatever the numbering); returns (simu, dof_n)."""
+    nodes are selected whatever the numbering); returns (simu, dof_n).  mapped = (perm, mesh0): the sets are selected on
+    mesh0 and mapped through perm."""
+    if mapped is not None:
+        perm, mesh0 = mapped
+        sel = mesh0
+    else:
+        perm, sel = None, mesh
+    P = (lambda nodes: perm[np.asarray(nodes, int)]) if perm is not None else (lambda nodes: np.asarray(nodes, int))  # noqa: E731
+    _all_nodes = P(np.asarray(sel.nodes, int))
     kind = case["kind"]
-    coord = np.asarray(mesh.coord, float)
+    coord = np.asarray(sel.coord, float)
     n = np.array(case["dir"], float)
-    dimc = mesh.inDim
+    dimc = sel.inDim
     n[dimc:] = 0
     if np.linalg.norm(n) == 0:
         n[0] = 1.0
-    used = gm.used_nodes(mesh)
+    used = gm.used_nodes(sel)
     s = coord @ n
     lo, hi = s[used].min(), s[used].max()
     nodesD = used[s[used] <= lo + case["fd"] * (hi - lo)]
     nodesN = used[s[used] >= hi - case["fn"] * (hi - lo)]
     nodesN = np.setdiff1d(nodesN, nodesD)
+    bnodes = np.setdiff1d(gm.boundary_nodes(sel), nodesD)
+    nodesD, nodesN, bnodes = P(nodesD), P(nodesN), P(bnodes)
     a, b, c_, d_ = case["load"]
     if kind == "elastic":
         dim = mesh.dim
@@ -570,13 +583,13 @@ def _renum_build(case, mesh):
             vals = [lambda x, y, z: a + b * x + c_ * y, d_, lambda x, y, z: c_ - a * z]
             simu.add_neumann(nodesN, vals[:dim], unk)
         if case["boundary_load"]:
-            bn = np.setdiff1d(gm.boundary_nodes(mesh), nodesD)
+            bn = bnodes
             if bn.size:
                 if dim == 2:
                     simu.add_lineLoad(bn, [lambda x, y, z: b + a * y], ["x"])
                 else:
                     simu.add_surfLoad(bn, [lambda x, y, z: b + a * y], ["z"])
-        simu.add_volumeLoad(mesh.nodes, [d_ + 0.5], [unk[-1]])
+        simu.add_volumeLoad(_all_nodes, [d_ + 0.5], [unk[-1]])
         return simu, dim
     simu = Simulations.Thermal(mesh, Models.Thermal(k=case["k"], c=1.0, thickness=case["thickness"]))
     simu.add_dirichlet(nodesD, [lambda x, y, z, q=case["dval"][0]: q * (1 + 0.5 * x - 0.25 * y + 0.125 * z)], ["t"])
@@ -584,9 +597,9 @@ def _renum_build(case, mesh):
         simu.add_neumann(nodesN, [lambda x, y, z: a + b * x + c_ * y], ["t"])
     # body source (add_volumeLoad documents dim 2 and 3 only; a 1D bar takes it as a line load)
     if mesh.dim == 1:
-        simu.add_lineLoad(mesh.nodes, [d_ + 0.5], ["t"])
+        simu.add_lineLoad(_all_nodes, [d_ + 0.5], ["t"])
     else:
-        simu.add_volumeLoad(mesh.nodes, [d_ + 0.5], ["t"])
+        simu.add_volumeLoad(_all_nodes, [d_ + 0.5], ["t"])
     return simu, 1
 
 
@@ -603,7 +616,8 @@ def check_renumbering(case, rec):
     perm = np.random.default_rng(case["perm"]).permutation(Nn)
     mesh1 = gm.rebuild(mesh0, np.array(mesh0.coord, float), perm)
     simu0, dof_n = _renum_build(case, mesh0)
-    simu1, _ = _renum_build(case, mesh1)
+    simu1, _ = _renum_build(case, mesh1, mapped=(perm, mesh0) if case.get("sets") == "mapped" else None)
+    rec.label("sets:" + case.get("sets", "selected"))
     pd = (perm[:, None] * dof_n + np.arange(dof_n)[None, :]).ravel()  # new dof of old dof
 
     K0, C0, M0, F0 = [orc.dense(A) for A in simu0.Get_K_C_M_F()]
